@@ -204,6 +204,9 @@ def run(ctx):
                f'what the user wrote', file=lex.file, line=sites[0].lineno,
                witness="select 'it''s' 'x'   -- the message shows 'it's' and too few carets")
 
+    # (5a) the shown line and the caret line, by interpretation of error_location on token lists with source positions -------------------------------
+    check_caret_alignment(ctx, sm, el)
+
     # (5b) token.lineno is not a physical line number ------------------------------------------------------------
     check_lineno_use(ctx, lex, sm)
 
@@ -265,6 +268,58 @@ def run(ctx):
     ctx.floor('states_scanned', 1200)
     ctx.floor('placeholder_classes', 4)
     ctx.floor('reachability_checks', 150)
+
+
+def check_caret_alignment(ctx, sm, el):
+    """error_location interpreted (sa/interp.py) on probe texts whose tokens are given with their source positions: in the last two lines of the message the carets
+    stand exactly under the offending token of the shown line (or directly behind the last token when the input ended too early) - for short lines, for an error in
+    the second and third line, and for lines of more than 300 characters with the error far to the right."""
+    import re as _re
+    from ..interp import Interp, Obj, Raised, Env
+    long_cols = ', '.join(f'column_{i}' for i in range(30))
+
+    def tokens_of(text):
+        out = []
+        for m in _re.finditer(r'[^\s,]+|,', text):
+            out.append(Obj('Token', type='T', value=m.group(0), index=m.start(), end=m.end(), lineno=text.count('\n', 0, m.start()) + 1))
+        return out
+    probes = [('short line', 'select a from from t', 'from', 2), ('second line', 'select a\nfrom from t', 'from', 2), ('third line', 'select a\n   , b\n  from from t', 'from', 2),
+              ('first token', 'selec a from t', 'selec', 1), ('long line', f'select {long_cols} from from t', 'from', 2),
+              ('long line, second line', f'select a,\n {long_cols} from from t where x', 'from', 2),
+              ('end of input', 'select a from', None, 0), ('end of input, long line', f'select {long_cols} from', None, 0),
+              ('end of input, second line', 'select a\n  from', None, 0)]
+    n = 0
+    for label, text, bad, occurrence in probes:
+        toks = tokens_of(text)
+        bad_tok = None
+        if bad is not None:
+            bad_tok = [t for t in toks if t.value == bad][occurrence - 1]
+        self_ = Obj('ErrorHandling', lexer=Obj('Lexer', text=text), parser=Obj('Parser'), tokens=toks, bad_token=bad_tok, expected_tokens=[])
+        it = Interp.for_file(ctx.src, INIT, {}, {})
+        n += 1
+        try:
+            msgs = it.call_function(el, [self_], {}, Env())
+        except Raised as r:
+            ctx.ob('C19.caret-aligned', label, False, f'error_location raises {r.exc_name} on `{text[:40]}...`', file=INIT, line=el.lineno)
+            continue
+        ok = isinstance(msgs, list) and len(msgs) >= 3 and all(isinstance(x, str) for x in msgs)
+        detail = ''
+        if ok:
+            shown, carets = msgs[-2], msgs[-1]
+            p_ = carets.find('^')
+            k_ = carets.count('^')
+            ok = p_ >= 0 and set(carets) <= {'-', '^'} and carets == '-' * p_ + '^' * k_
+            if ok and bad_tok is not None:
+                ok = shown[p_:p_ + k_] == bad_tok.value
+                detail = f'the carets stand under `{shown[p_:p_ + k_]}` of the shown line, the offending token is `{bad_tok.value}`'
+            elif ok:
+                last = toks[-1].value
+                ok = shown[:p_].endswith(last) and shown[p_:].strip() == ''
+                detail = f'the caret stands behind `{shown[max(p_ - 12, 0):p_]}`, the input ends with `{last}`'
+        ctx.ob('C19.caret-aligned', label, ok,
+               f'[{label}] the last two lines of the message do not point at the error: {detail or msgs}', file=INIT, line=el.lineno,
+               witness='a statement of more than 160 characters in one line with a doubled keyword near its end')
+    ctx.setcount('caret_probes', n)
 
 
 def check_verified(ctx, sm):
